@@ -9,6 +9,10 @@ use serde::{Deserialize, Serialize};
 
 pub struct C06;
 
+fn sel_any(k: usize, len: usize) -> u16 {
+    crate::hist::sel_for(k, len)
+}
+
 #[derive(Clone, Debug, Serialize, Deserialize)]
 pub enum BlobMut {
     FlipBit(u16),
@@ -240,7 +244,7 @@ impl Property for C06 {
             1 => prop::collection::vec(any::<u8>(), 0..100).prop_map(BlobMut::Random),
         ];
         (
-            history_strategy(ops, 3, true, true),
+            crate::hist::history_strategy_big(ops, 3, true, true, true),
             0u16..30000,
             0u8..8,
             prop_oneof![8 => 1u8..=3, 1 => Just(0u8)],
@@ -280,7 +284,47 @@ impl Property for C06 {
             "blob_rejected_with_error",
             "blob_answered",
             "walk_across_upgrade",
+            "walk_multi_page_real_1000_limit",
         ]
+    }
+    fn extra_cases(&self, tier: Tier) -> Vec<Case06> {
+        // addresses with more UTXOs than the real page limit, walked through the real endpoint
+        // while blocks, forks and stabilisation happen in between
+        use crate::hist::{Cfg, DiffMode, Op, ParentSel};
+        let mut v = vec![];
+        let n_cases = match tier {
+            Tier::Quick => 6,
+            Tier::Thorough => 60,
+        };
+        for k in 0..n_cases {
+            let net = [crate::chain::Net::Mainnet, crate::chain::Net::Testnet, crate::chain::Net::Regtest][k % 3];
+            let ext = |parent: ParentSel| Op::Extend { parent, coinbase: vec![(0, 3), (0, 2)], txs: vec![], diff: 0, dt: 30, reuse: None };
+            let mut ops = vec![ext(ParentSel::BestTip), Op::BigFund { script: 0, n: 1001 + (k as u16 * 97) % 1500, diff: 0 }, ext(ParentSel::BestTip)];
+            if k % 2 == 0 {
+                ops.push(Op::BigFund { script: 0, n: 1100 + (k as u16 * 31) % 900, diff: 0 });
+            }
+            // the walk starts here (index = ops.len()-1), then: a competing fork that overtakes,
+            // stabilisation, an upgrade
+            let start_idx = ops.len() - 1;
+            ops.push(ext(ParentSel::Any(sel_any(1, 4))));
+            ops.push(ext(ParentSel::Tip(65535)));
+            ops.push(ext(ParentSel::Tip(65535)));
+            if k % 3 == 0 {
+                ops.push(Op::Upgrade);
+            }
+            ops.push(ext(ParentSel::BestTip));
+            ops.push(Op::SetThreshold(1));
+            ops.push(ext(ParentSel::BestTip));
+            let n_ops = ops.len();
+            v.push(Case06 {
+                hist: History { cfg: Cfg { net, threshold: 1 + (k % 4) as u8, pool: vec![crate::chain::ScriptSpec::P2wpkh(k as u8 % 4)], diff_mode: DiffMode::One, validated: false }, ops },
+                start: ((start_idx * 32768) / n_ops + 1) as u16,
+                addr: 0,
+                limit: 0,
+                blobs: vec![BlobMut::Height(1), BlobMut::ForeignTip(0)],
+            });
+        }
+        v
     }
     fn run(&self, case: &Case06) -> Outcome {
         let mut out = Outcome::default();
@@ -370,6 +414,9 @@ impl Property for C06 {
                 guard += 1;
             }
             finish_walk(&w, &wk, &mut out, &format!("page walk for {addr} started at step {start_at}"));
+            if wk.pages >= 2 && wk.limit.is_none() {
+                out.class("walk_multi_page_real_1000_limit");
+            }
             if wk.pages >= 2 && wk.interleaved_ops >= 1 {
                 out.class("walk_multi_page_with_interleaving");
                 if overtaken && !wk.ended_by_error {
